@@ -1,16 +1,18 @@
 /-
 C02  Second-order automatic differentiation is exact and consistent with first order.
 
-Scope of what is PROVED here (see DESIGN.md, "C02 partial"): the second-order chain rules the Dual2
-code applies — written as scalar 2-jets `J2 = (value, first derivative, HALF second derivative)`,
-the projection of a Dual2 number on a direction — are sound for every formula of C01's grammar, and
-agree with the first-order rules in value and first derivative; the read-back doubles the stored
-half-Hessian; converting down drops only the Hessian.  The refinement from the list-level `Dual2`
-arithmetic of Model/Dual.lean to these jets (alignment of Hessian blocks by variable name) is not yet
-a theorem; it is covered by the correspondence run (Hessian by name pair, symmetric-Hessian oracle)
-and by C03's exhaustive layout run.
+Chain of the proof: (1) the second-order chain rules the Dual2 code applies — written as scalar 2-jets
+`J2 = (value, first derivative, HALF second derivative)` along a direction — are sound for every formula
+of C01's grammar (`C02_second_exact`) and agree with the first-order rules (`C02_proj`); (2) the
+LIST-LEVEL `Dual2` arithmetic of Model/Dual.lean (alignment of gradient and Hessian blocks by variable
+name, whatever the layouts of the operands) refines these jets along every direction in the plane of
+two variable names (`C02_refines`, by induction over the formula with the name-indexed specifications
+of Proofs/Dual2Layout.lean and Analysis/Refine2.lean); hence (3) value, gradient and Hessian entries —
+diagonal AND mixed — of the list-level result are the true derivatives (`C02_hessian_exact`,
+`C02_hessian_entries`), and the Hessian is symmetric (`C02_symmetric`); the read-back doubles the stored
+half-Hessian (`C02_readback`); converting down drops only the Hessian.
 -/
-import RateslibModel.Analysis.Jets2Sound
+import RateslibModel.Analysis.Refine2
 import RateslibModel.Props.C17
 namespace Rateslib
 open Real Expr Filter Topology
@@ -84,6 +86,48 @@ order). -/
 theorem C02_mul_comm (a b : J2) : mulJ2 a b = mulJ2 b a := by
   simp only [mulJ2, J2.mk.injEq]
   refine ⟨by ring, by ring, by ring⟩
+
+/-- REFINEMENT: for every formula, every shape-valid leaves (any layouts) and every direction
+`α·e_v + β·e_w`, the list-level second-order evaluation is shape-valid and its (value, directional
+derivative, half directional second derivative) is the scalar 2-jet of the formula at the leaves' jets. -/
+theorem C02_refines (e : Expr) (env : Nat → Dual2 ℝ) (hwf : ∀ i, (env i).WF) (α β : ℝ) (v w : String) :
+    (evalD2 e env).WF ∧
+      dirJet α β v w (evalD2 e env) = evalJ2 e (fun i => dirJet α β v w (env i)) :=
+  evalD2_refines e env hwf α β v w
+
+/-- Hence the list-level result carries the TRUE derivatives: let the leaf values move along any
+curves `u i` whose 2-jets at `t₀` are the leaves' jets in the direction `α·e_v + β·e_w`; then
+`t ↦ e(u t)` has at `t₀` the value `real`, the first derivative `α·∂_v + β·∂_w` and the half second
+derivative `α²·H_vv + αβ·(H_vw + H_wv) + β²·H_ww` read off the evaluated `Dual2` number by NAME. -/
+theorem C02_hessian_exact (e : Expr) (env : Nat → Dual2 ℝ) (hwf : ∀ i, (env i).WF) (α β : ℝ)
+    (v w : String) (u : Nat → ℝ → ℝ) (t₀ : ℝ)
+    (hu : ∀ i, Jet2At (u i) t₀ (dirJet α β v w (env i)).v0 (dirJet α β v w (env i)).v1
+      (dirJet α β v w (env i)).v2)
+    (hd : Dom2 e (fun i => u i t₀)) :
+    Jet2At (fun t => evalR e (fun i => u i t)) t₀ (evalD2 e env).real
+      (α * Dual2.den (evalD2 e env) v + β * Dual2.den (evalD2 e env) w)
+      (α * α * Dual2.den2 (evalD2 e env) v v
+        + α * β * (Dual2.den2 (evalD2 e env) v w + Dual2.den2 (evalD2 e env) w v)
+        + β * β * Dual2.den2 (evalD2 e env) w w) := by
+  have h := jet2_sound e u t₀ (fun i => dirJet α β v w (env i)) hu hd
+  rw [← (C02_refines e env hwf α β v w).2] at h
+  exact h
+
+/-- The Hessian is symmetric by name whenever the leaves' are. -/
+theorem C02_symmetric (e : Expr) (env : Nat → Dual2 ℝ) (hwf : ∀ i, (env i).WF)
+    (hs : ∀ i, ∀ n w, Dual2.den2 (env i) n w = Dual2.den2 (env i) w n) (n w : String) :
+    Dual2.den2 (evalD2 e env) n w = Dual2.den2 (evalD2 e env) w n :=
+  evalD2_sym e env hwf hs n w
+
+/-- Entries: the diagonal entry `H_vv` is the half second derivative along `e_v`; the mixed entry is
+obtained by polarisation — the half second derivative along `e_v + e_w` minus those along `e_v` and
+`e_w` is `H_vw + H_wv = 2·H_vw`. (Pure algebra on `dirJet`; with `C02_hessian_exact` and
+`C02_symmetric` this identifies every stored entry with half the true second partial derivative.) -/
+theorem C02_hessian_entries (d : Dual2 ℝ) (v w : String) :
+    (dirJet 1 0 v w d).v2 = Dual2.den2 d v v ∧
+    (dirJet 1 1 v w d).v2 - (dirJet 1 0 v w d).v2 - (dirJet 0 1 v w d).v2
+      = Dual2.den2 d v w + Dual2.den2 d w v := by
+  constructor <;> simp only [dirJet] <;> ring
 
 /-! Non-vacuity -/
 example : Dom2 (.div (.log (.mul (.leaf 0) (.leaf 1))) (.leaf 2)) (fun i => (i : ℝ) + 2) := by
